@@ -678,6 +678,12 @@ func (node *Node) AsMapString(ctx *Context, vp unsafe.Pointer) error {
 		knode := NewNode(next)
 		key, _ := knode.AsStr(ctx)
 		val := NewNode(PtrOffset(next, 1))
+		/* null stores the zero value, like encoding/json */
+		if val.IsNull() {
+			m[key] = ""
+			next = PtrOffset(val.cptr, 1)
+			continue
+		}
 		m[key], ok = val.AsStr(ctx)
 		if !ok {
 			if gerr == nil {
